@@ -28,21 +28,24 @@ from . import common
 PROP = "C04"
 RULE = ("root datasets of 5..40 events (three dyadic scalar columns with "
         "NaN/inf sprinkled in, image/mask/contour/trace in a part of the "
-        "cases), chains that grow to depth 1..4 during the history, 6..45 "
-        "operations: range edit / manual exclusion or re-inclusion / "
-        "temporary feature / enable-filters / remove-invalid on a random "
-        "level, grow, rejuvenate of the youngest; ranges are drawn around "
-        "the data so that levels shrink, empty and refill and events drop "
-        "out and come back; 45% of the cases are sliding-window scenarios "
-        "(a window of root events moves on a random level while events are "
-        "excluded on the levels below, and is opened again at the end), 15% "
-        "sibling histories (two branches below 0..2 shared levels, edits and "
-        "rejuvenate through either branch in alternation; modelled by "
-        "sib_run), 8% chains with polygon filters and 'limit events' on any "
-        "level (oracle only); a case is non-trivial when depth >= 2 is "
-        "reached, at least one manual exclusion was hidden and came back, "
-        "and at least two different masks were seen on one level; distinct = "
-        "different case dict")
+        "cases; 8% of the roots are .rtdc files with image_bg and a contour "
+        "computed from the mask), chains that grow to depth 1..4 during the "
+        "history, 6..45 operations: range edit / manual exclusion or "
+        "re-inclusion / temporary feature / enable-filters / remove-invalid "
+        "on a random level, grow, rejuvenate of the youngest with or without "
+        "reading everything afterwards, stray reads of one feature of one "
+        "level at arbitrary moments (lazy caches); families: random chains, "
+        "35% sliding-window scenarios, 15% siblings (two branches below 0..2 "
+        "shared levels, modelled by sib_run), 8% polygon filters and 'limit "
+        "events' on any level (oracle only), 10% `ext` (oracle only): root "
+        "configuration changes with emodulus as computed feature, "
+        "reset_filter() on a level, deleted ranges, a lone min key (the "
+        "refresh raises until repaired), non-scalar temporary features on "
+        "any level; non-scalar children are read with c[i], c[-1], a slice, "
+        "an index array and a boolean mask; a case is non-trivial when "
+        "depth >= 2 is reached, at least one manual exclusion was hidden and "
+        "came back, and at least two different masks were seen on one "
+        "level; distinct = different case dict")
 TRUSTED_BASE = [
     "hash oracle: hashobj (md5) of two different (mask, root ids) pairs "
     "differs (modelled as equality of what is hashed)",
@@ -51,10 +54,13 @@ TRUSTED_BASE = [
     "the box/invalid filter of one level is modelled for min/max ranges "
     "(with the per-feature cache of Filter.update) and NaN/inf only; polygon "
     "filters and 'limit events' are not exercised (C03's subject)",
-    "ChildScalar's lazy cache is modelled as a snapshot taken at refresh "
-    "(the harness reads features only right after a refresh); len(child) is "
-    "read once right after the child is created, so that _length is always "
-    "cached",
+    "the lazy caches (`_events`, ChildScalar._array) are model state "
+    "(l_cache, read); which features Filter.update reads during a refresh "
+    "is modelled (reads_box, remove-invalid); stray reads are generated only "
+    "on levels that are not out of date (below a separately refreshed "
+    "ancestor a read may raise IndexError: boolean index of the old size); "
+    "len(child) is read once right after the child is created, so that "
+    "_length is always cached",
     "the non-scalar features are represented by one image-id column read "
     "through the modelled index maps; mask, contour and trace use the same "
     "code in events.py and are compared by the oracle only",
@@ -80,6 +86,14 @@ ASSUMPTIONS = [
     "are 'don't care' for the oracle and for the theorem (g_excl/g_ever)",
     "the child's 'index' feature is renumbered by design and not compared; "
     "computed features a dict root cannot compute are skipped",
+    "a half-set range (lone min key) makes the refresh raise ValueError "
+    "('make sure that both ... are set'): legitimate, nothing is judged "
+    "until the range is completed and the youngest rejuvenated again",
+    "reset_filter() on a level makes the exclusions of that level start over "
+    "(the stored root ids are dropped)",
+    "index arrays for non-scalar children are increasing (h5py accepts "
+    "nothing else); negative indices are not passed to the map_indices_* "
+    "functions (numpy wraps them, the model's take_idx does not)",
 ]
 
 GIVEN = ["deform", "area_um", "bright_avg"]
@@ -119,7 +133,8 @@ def float2f(v):
         return (3, 0)
     k = v * 8
     if k != int(k):
-        raise ValueError("not dyadic: %r" % v)
+        # only in the oracle-only `ext` family (no model to compare with)
+        return (4, int(round(v * 1e6)))
     return (0, int(k))
 
 
@@ -135,6 +150,12 @@ def gen_case(rng, thorough=False, hazard=None):
             return gen_sib(rng, thorough)
         if r < 0.58:
             return gen_poly(rng, thorough)
+        if r < 0.68:
+            return gen_ext(rng, thorough)
+        if r < 0.76:
+            # the root is an .rtdc file (modelled like the dict root)
+            case = gen_scenario(rng, thorough)
+            return dict(case, h5=True, extra=1)
     n = rng.choice([5, 6, 7, 8, 10, 12, 16, 24, 40]) if rng.random() < .8 \
         else rng.randint(5, 40)
     cols = []
@@ -194,6 +215,15 @@ def gen_case(rng, thorough=False, hazard=None):
             ops.append([4, lvl, 0 if rng.random() < 0.5 else 1, 0, 0])
         elif r < 0.80 and not extra:
             ops.append([5, lvl, 0 if rng.random() < 0.5 else 1, 0, 0])
+        elif r < 0.86:
+            # stray read; only on a level that is not out of date (reading
+            # below a separately refreshed ancestor may raise IndexError)
+            if stale_from is not None and lvl > stale_from:
+                lvl = rng.randint(0, stale_from)
+            ops.append([3, 2, lvl, rng.randint(0, 4), 0])
+        elif r < 0.90:
+            ops.append([3, 1, 0, 0, 0])                     # refresh only
+            stale_from = None
         else:
             ops.append([3, 0, 0, 0, 0])
             stale_from = None
@@ -231,8 +261,18 @@ def gen_scenario(rng, thorough=False):
                         rng.randint(0, 50), 0])
         elif r < 0.35:
             ops.append([4, rng.randint(0, depth), rng.randint(0, 1), 0, 0])
-        if rng.random() < 0.5:
+        r = rng.random()
+        if r < 0.4:
             ops.append([3, 0, 0, 0, 0])
+        elif r < 0.6:
+            # refresh without reading, new root data, then stray reads: some
+            # features are cached (stale), others are computed on demand
+            ops.append([3, 1, 0, 0, 0])
+            ops.append([3, 2, rng.randint(0, depth), rng.randint(0, 4), 0])
+            ops.append([2, 0, rng.randint(0, 1), rng.randint(0, 50), 0])
+            for _ in range(rng.randint(1, 3)):
+                ops.append([3, 2, rng.randint(0, depth), rng.randint(0, 4),
+                            0])
     ops.append([3, 0, 0, 0, 0])
     # finally open everything again: all hidden events come back
     for lvl in range(depth):
@@ -282,8 +322,15 @@ def gen_sib(rng, thorough=False):
                         0, 0])
         else:
             ops.append([t + 3, 0, 0, 0, 0])
-        if rng.random() < 0.45:
+        r = rng.random()
+        if r < 0.45:
             ops.append([10 * rng.randint(0, 1) + 3, 0, 0, 0, 0])
+        elif r < 0.6:
+            # refresh one branch without reading, then a stray read there
+            b2 = rng.randint(0, 1)
+            ops.append([10 * b2 + 3, 1, 0, 0, 0])
+            ops.append([10 * b2 + 3, 2, rng.randint(0, depth[b2]),
+                        rng.randint(0, 4), 0])
     for lvl in range(nshared + 1):
         ops.append([0, lvl, 0, -1, n + 1])
     ops += [[3, 0, 0, 0, 0], [13, 0, 0, 0, 0], [3, 0, 0, 0, 0]]
@@ -309,6 +356,47 @@ def gen_poly(rng, thorough=False):
             else:
                 ops.append([9, lvl, rng.choice([0, 1, 2, 3, n // 2, n]), 0, 0])
     return dict(case, family="poly", ops=ops, extra=rng.choice([0, 0, 1]))
+
+
+def gen_ext(rng, thorough=False):
+    """Oracle-only family: root configuration changes (a computed feature,
+    emodulus, depends on them), reset_filter() on a level, deleted and
+    half-set ranges, non-scalar temporary features on any level."""
+    case = gen_scenario(rng, thorough)
+    n = case["n"]
+    depth = sum(1 for o in case["ops"] if o[0] == 6)
+    ops = []
+    first = True
+    for o in case["ops"]:
+        ops.append(o)
+        if o[0] != 3 or o[1] != 0:
+            continue
+        if first:
+            # every case has a non-scalar temporary feature from the start
+            first = False
+            ops.append([2, rng.randint(0, depth), 2, rng.randint(0, 50), 0])
+            ops.append([3, 0, 0, 0, 0])
+        r = rng.random()
+        lvl = rng.randint(0, depth)
+        if r < 0.25:
+            ops.append([3, 3, rng.randint(0, 30), 0, 0])
+            if rng.random() < 0.5:
+                ops.append([3, 0, 0, 0, 0])
+        elif r < 0.40:
+            ops.append([3, 4, lvl, 0, 0])
+        elif r < 0.50:
+            ops.append([3, 5, lvl, rng.choice([0, 0, 1]), 0])
+        elif r < 0.60:
+            slot = rng.choice([0, 1])
+            ops.append([3, 6, lvl, slot, rng.randint(0, n)])
+            ops.append([3, rng.choice([0, 1]), 0, 0, 0])     # raises
+            a = rng.randint(0, n - 1)
+            ops.append([0, lvl, slot, a, a + rng.randint(1, n)])
+            ops.append([3, 0, 0, 0, 0])
+        elif r < 0.75:
+            ops.append([2, lvl, 2, rng.randint(0, 50), 0])
+            ops.append([3, rng.choice([0, 1]), 0, 0, 0])
+    return dict(case, family="ext", ops=ops, extra=rng.choice([0, 0, 1]))
 
 
 def gen_range(rng, lvl, cols):
@@ -349,6 +437,23 @@ def _register():
     for t in TEMPS:
         if not feat_logic.feature_exists(t):
             dclab.register_temporary_feature(t)
+    if not feat_logic.feature_exists(NS_TEMP):
+        dclab.register_temporary_feature(NS_TEMP, is_scalar=False)
+
+
+NS_TEMP = "vt_c04_ns"          # a non-scalar temporary feature
+
+
+def unit(case, slot, k):
+    """value of the integer k of a case in the units of feature `slot`: k/8,
+    except in the `ext` family where deform and area_um are scaled into the
+    range of the emodulus look-up table"""
+    if case.get("family") == "ext":
+        if slot == 0:
+            return 0.02 + 0.0025 * k
+        if slot == 1:
+            return 60.0 + 1.5 * k
+    return k / 8.0
 
 
 def make_root(case):
@@ -356,8 +461,10 @@ def make_root(case):
     import dclab
     n = case["n"]
     d = {}
-    for name, col in zip(GIVEN, case["cols"]):
-        d[name] = np.array([f2float(tk) for tk in col], dtype=np.float64)
+    for slot, (name, col) in enumerate(zip(GIVEN, case["cols"])):
+        d[name] = np.array(
+            [unit(case, slot, tk[1]) if tk[0] == 0 else f2float(tk)
+             for tk in col], dtype=np.float64)
     ids = np.arange(n, dtype=np.uint8) + 3
     d["image"] = np.zeros((n, 4, 5), dtype=np.uint8) + ids[:, None, None]
     if case.get("extra"):
@@ -371,7 +478,45 @@ def make_root(case):
                                   + ids[:, None].astype(np.int16)),
                       "fl1_median": (np.arange(6, dtype=np.int16)[None, :] * 2
                                      + ids[:, None].astype(np.int16))}
-    return dclab.new_dataset(d)
+    if case.get("h5"):
+        return make_h5_root(case, d)
+    ds = dclab.new_dataset(d)
+    if case.get("family") == "ext":
+        ds.config["setup"]["channel width"] = 20.0
+        ds.config["setup"]["flow rate"] = 0.04
+        ds.config["imaging"]["pixel size"] = 0.34
+        ds.config["calculation"]["emodulus lut"] = "LE-2D-FEM-19"
+        ds.config["calculation"]["emodulus medium"] = "CellCarrier"
+        ds.config["calculation"]["emodulus temperature"] = 23.0
+        ds.config["calculation"]["emodulus viscosity model"] = \
+            "buyukurganci-2022"
+    return ds
+
+
+def make_h5_root(case, d):
+    """the same data in an .rtdc file: h5py-backed features, contour
+    computed lazily from the mask, image_bg"""
+    import tempfile
+    import numpy as np
+    import dclab
+    from . import gen
+    tdir = tempfile.mkdtemp(prefix="verif-C04-h5-",
+                            dir=os.environ.get("VERIF_SCRATCH", "/var/tmp"))
+    path = os.path.join(tdir, "root.rtdc")
+    feats = {k: v for k, v in d.items() if k != "contour"}
+    feats["image_bg"] = (feats["image"] // 2).astype(np.uint8)
+    meta = gen.base_meta(with_fl="trace" in feats)
+    meta["imaging"]["roi size x"] = 5
+    meta["imaging"]["roi size y"] = 4
+    if "trace" in feats:
+        meta["fluorescence"]["samples per event"] = 6
+    with dclab.RTDCWriter(path, mode="reset") as hw:
+        hw.store_metadata(meta)
+        for k, v in feats.items():
+            hw.store_feature(k, v)
+    ds = dclab.new_dataset(path)
+    ds._verif_tmpdir = tdir
+    return ds
 
 
 def scalar_slots(ds):
@@ -436,6 +581,25 @@ def run_impl(case):
     _register()
     n = case["n"]
     root = make_root(case)
+    try:
+        return _run_impl(case, root)
+    finally:
+        tdir = getattr(root, "_verif_tmpdir", None)
+        if tdir:
+            import shutil
+            try:
+                root.close()
+            except Exception:
+                pass
+            shutil.rmtree(tdir, ignore_errors=True)
+
+
+def _run_impl(case, root):
+    import numpy as np
+    import dclab
+    from dclab.rtdc_dataset.fmt_hierarchy import hfilter
+    n = case["n"]
+    halfset = set()              # (id(ds), name) with a lone "min" key
     rootnode = Node(root, list(range(n)))
     shared = [rootnode]          # root first
     branch = [[], []]            # the two branches below the shared part
@@ -481,8 +645,11 @@ def run_impl(case):
                 lvl = a % (depth + 1)
                 name = (GIVEN + TEMPS)[b % NSLOT]
                 ds = chain[lvl].ds
-                ds.config["filtering"][name + " min"] = c / 8.0
-                ds.config["filtering"][name + " max"] = d / 8.0
+                ds.config["filtering"][name + " min"] = unit(case, b % NSLOT,
+                                                             c)
+                ds.config["filtering"][name + " max"] = unit(case, b % NSLOT,
+                                                             d)
+                halfset.discard((id(ds), name))
             elif tag == 1:
                 lvl = a % (depth + 1)
                 nd = chain[lvl]
@@ -508,11 +675,31 @@ def run_impl(case):
                 m = len(nd.ds)
                 data = np.array([f2float(tval(c, j)) for j in range(m)],
                                 dtype=np.float64)
+                if b == 2 and case.get("family") == "ext":
+                    # non-scalar temporary feature (m, 2, 2)
+                    name = NS_TEMP
+                    data = data[:, None, None] * np.array([[1., 2.],
+                                                           [3., 4.]])
+                was_fresh, before = nd.fresh, list(nd.vis_ref)
                 try:
                     dclab.set_temporary_feature(nd.ds, name, data)
                     flat += [2, 0]
                     if lvl:
                         refreshed(chain, lvl)
+                    if was_fresh and len(before) == m:
+                        # the values were assigned to the events the level
+                        # consisted of (pending edits of its ancestors may
+                        # change its events in the refresh that follows)
+                        back = np.asarray(root[name][:])
+                        want = np.full((n,) + data.shape[1:], np.nan)
+                        if m:
+                            want[before] = data
+                        if back.shape != want.shape or not np.array_equal(
+                                back, want, equal_nan=True):
+                            oracle_fail("op %d: temporary feature %s set on "
+                                        "level %d did not reach the level's "
+                                        "events in the root" % (opi, name,
+                                                                lvl))
                 except IndexError:
                     # only legitimate on a level that was not refreshed
                     # after one of its ancestors was
@@ -520,13 +707,86 @@ def run_impl(case):
                     if nd.fresh:
                         oracle_fail("op %d: set_temporary_feature on level "
                                     "%d raised IndexError" % (opi, lvl))
-            elif tag == 3:
-                if depth:
-                    chain[-1].ds.rejuvenate()
-                else:
-                    root.apply_filter()
+            elif tag == 3 and a in (0, 1):
+                pending = [nd for nd in chain
+                           if any(k[0] == id(nd.ds) for k in halfset)]
+                try:
+                    if depth:
+                        chain[-1].ds.rejuvenate()
+                    else:
+                        root.apply_filter()
+                except ValueError:
+                    if not pending:
+                        raise
+                    # "make sure that both min and max are set": legitimate
+                    continue
+                if pending:
+                    oracle_fail("op %d: rejuvenate did not complain about "
+                                "a half-set range" % opi)
                 refreshed(chain, depth)
-                flat += observe(case, chain, oracle_fail, stats, opi)
+                if a == 0:
+                    flat += observe(case, chain, oracle_fail, stats, opi)
+            elif tag == 3 and a == 3:
+                # configuration change on the root (metadata for computed
+                # features): oracle only
+                calc = root.config["calculation"]
+                if b % 4 == 0:
+                    calc["emodulus medium"] = "water" if \
+                        calc["emodulus medium"] == "CellCarrier" else \
+                        "CellCarrier"
+                else:
+                    calc["emodulus temperature"] = 20.0 + (b % 15)
+            elif tag == 3 and a == 4:
+                # reset_filter() on a level: exclusions start over
+                lvl = b % (depth + 1)
+                nd = chain[lvl]
+                nd.ds.reset_filter()
+                nd.excl = set()
+                nd.ever = set()
+                nd.seen_hidden = set()
+                for nm in GIVEN + TEMPS:
+                    halfset.discard((id(nd.ds), nm))
+            elif tag == 3 and a == 5:
+                # the range keys of one feature are deleted
+                lvl = b % (depth + 1)
+                name = (GIVEN + TEMPS)[c % NSLOT]
+                cfg = chain[lvl].ds.config["filtering"]
+                cfg.pop(name + " min", None)
+                cfg.pop(name + " max", None)
+                halfset.discard((id(chain[lvl].ds), name))
+            elif tag == 3 and a == 6:
+                # a lone "min" key: the next refresh through this level
+                # raises ValueError until the range is completed
+                lvl = b % (depth + 1)
+                name = GIVEN[c % 3]
+                cfg = chain[lvl].ds.config["filtering"]
+                cfg[name + " min"] = unit(case, c % 3, d)
+                cfg.pop(name + " max", None)
+                halfset.add((id(chain[lvl].ds), name))
+            elif tag == 3 and a == 2:
+                # read one feature of one level at an arbitrary moment (no
+                # refresh): fills the lazy caches; the value may be stale
+                lvl = b % (depth + 1)
+                name = (GIVEN + TEMPS)[c % NSLOT]
+                ds = chain[lvl].ds
+                if name in ds:
+                    try:
+                        vals = feat_list(ds[name], "scalar")
+                    except IndexError:
+                        # legitimate only below a separately refreshed level
+                        vals = None
+                        if chain[lvl].fresh:
+                            oracle_fail("op %d: reading %s on level %d "
+                                        "raised IndexError" % (opi, name,
+                                                               lvl))
+                    if vals is None:
+                        flat += [31, 9]
+                    else:
+                        flat += [31, 1]
+                        for t, k in vals:
+                            flat += [t, k]
+                else:
+                    flat += [31, 0]
             elif tag == 4:
                 lvl = a % (depth + 1)
                 chain[lvl].ds.config["filtering"]["enable filters"] = bool(b)
@@ -618,6 +878,32 @@ def observe(case, nodes, oracle_fail, stats, opi):
             even = np.arange(0, n, 2)
             down = [int(x) for x in map_indices_root2child(ds, even)]
             flat += [-9] + up + [-9] + down
+            # the one-level maps, unsorted arguments with a duplicate
+            from dclab.rtdc_dataset.fmt_hierarchy import (
+                map_indices_child2parent, map_indices_parent2child)
+            plen = int(len(chain[lvl - 1]))
+            cidx = [length - 1, 0, length - 1] if length else []
+            pidx = [plen - 1, 0, plen - 1] if plen else []
+            try:
+                up1 = [int(x) for x in map_indices_child2parent(
+                    ds, np.array(cidx, dtype=int))]
+            except IndexError:
+                up1 = [-99]
+            down1 = [int(x) for x in map_indices_parent2child(
+                ds, np.array(pidx, dtype=int))]
+            flat += [-9] + up1 + [-9] + down1
+            if len(masks[lvl - 1]) == plen:
+                w = [j for j, m_ in enumerate(masks[lvl - 1]) if m_]
+                if length == len(w):
+                    if up1 != [w[i] for i in cidx]:
+                        oracle_fail("op %d, level %d: map_indices_"
+                                    "child2parent(%s) gives %s" % (
+                                        opi, lvl, cidx, up1))
+                    wantd = [j for j, q in enumerate(w) if q in pidx]
+                    if down1 != wantd:
+                        oracle_fail("op %d, level %d: map_indices_"
+                                    "parent2child(%s) gives %s, expected %s"
+                                    % (opi, lvl, pidx, down1, wantd))
             if vis is not None and len(vis[lvl]) == length:
                 if up != vis[lvl]:
                     oracle_fail("op %d, level %d: map_indices_child2root "
@@ -712,6 +998,25 @@ def view_mismatch(ds, parent, root, name, sel, rootids):
         for i, (p, r) in enumerate(zip(sel, rootids)):
             if not eq(c[i], parent[name][p]) or not eq(c[i], root[name][r]):
                 return "%s differs at child event %d" % (name, i)
+        m = len(sel)
+        if m and name != "contour":
+            # other index forms: negative, slice, index array, boolean mask
+            forms = [("[-1]", c[-1], [m - 1]),
+                     ("[0:2]", c[0:2], list(range(m))[0:2]),
+                     # (increasing: h5py accepts nothing else)
+                     ("[[0, m-1]]", c[np.array(sorted({0, m - 1}))],
+                      sorted({0, m - 1})),
+                     ("[bool]", c[np.arange(m) % 2 == 0],
+                      list(range(0, m, 2)))]
+            for label, got, idx in forms:
+                want = np.array([np.asarray(root[name][rootids[i]])
+                                 for i in idx])
+                got = np.asarray(got)
+                if label == "[-1]":
+                    want = want[0]
+                if not eq(got, want):
+                    return "%s%s differs from the root's events" % (
+                        name, label)
         return None
     c = np.asarray(ds[name][:])
     p = np.asarray(parent[name][:])[sel] if len(sel) else \
